@@ -362,3 +362,27 @@ def c14_heterogeneous_history(ctx, first, second):
             want[i] = s[k] * x[i] + o[k]
         ctx.ensure("... and at the labels' own resolution it is the label-wise linear model", eq(used(x), want))
     ctx.ensure("the label map handed to the constructor is not altered", bool(np.array_equal(used.labels, lab)))
+
+
+@ob("C14.combined_mask", cases=product_cases(front=("linear", "linear/clip", "none"), masked=(True, False)), mods=MODS, funcs=FUNCS, samples=(2, 4),
+    cite="a combined model equals the sequential composition of its parts ... static thresholding returns exactly the voxels strictly between its bounds inside the mask",
+    note="two public entry points that must agree: combined(signal, mask) and threshold(front(signal), mask) - the extra positional argument reaches the part that takes it "
+         "(after seed C14_g: argument count of a bound method taken without self)")
+def c14_combined_mask(ctx, front, masked):
+    shape = (2, 3)
+    x = ctx.array("x", shape, sample=(-1.0, 2.0))
+    mask = np.array([[True, False, True], [True, True, False]])
+    lo = ctx.real("lo", sample=(-0.5, 0.8))
+    hi = ctx.real("hi", sample=(0.8, 1.5))
+    T = darsia.StaticThresholdModel(lo, hi) if ctx.sym else darsia.StaticThresholdModel(float(lo), float(hi))
+    parts = [] if front == "none" else [_mk(ctx, k, str(i))[0] for i, k in enumerate(front.split("/"))]
+    C = darsia.CombinedModel(parts + [T])
+    seq = x
+    for m in parts:
+        seq = m(seq)
+    want = T(seq, mask) if masked else T(seq)
+    got = C(x, mask) if masked else C(x)
+    oks = [(eq(got[i], want[i]) if ctx.sym else bool(got[i]) == bool(want[i])) for i in np.ndindex(*shape)]
+    ctx.ensure("combined(signal[, mask]) == threshold(front(signal)[, mask]) voxel by voxel", and_(*oks))
+    if masked:
+        ctx.ensure("nothing outside the mask is selected", and_(*[(eq(got[i], False) if ctx.sym else not bool(got[i])) for i in np.ndindex(*shape) if not mask[i]]))
